@@ -247,7 +247,7 @@ struct Peek
 // defects of the Krylov factorization held by a solver (C07), all relative to `scale`
 struct KryRep
 {
-    long k = -1, m = -1; double scale = 0, rel = -1, orth = -1, fperp = -1, shape = -1, sym = -1, beta_err = -1; bool finite = true;
+    long k = -1, m = -1; double scale = 0, rel = -1, orth = -1, fperp = -1, shape = -1, sym = -1, beta_err = -1, minsub = 1; bool finite = true;
 };
 
 struct IRunner
@@ -330,6 +330,8 @@ static void kry_solver(S& s, KryRep& r, OpCtl& c1, OpCtl& c2, bool herm)
             if (herm) sy = std::max(sy, (double) std::abs(Hk(i, j) - Eigen::numext::conj(Hk(j, i))));
         }
         r.shape = sh / scale; r.sym = sy / scale;
+        // smallest sub-diagonal entry relative to |H|: a value at rounding level means a (missed) Krylov breakdown was passed
+        { double hm = (double) Hk.cwiseAbs().maxCoeff(), ms = 1.0; for (long j = 0; j + 1 < k; j++) { double a = (double) std::abs(Hk(j + 1, j)); if (a > 0 && hm > 0) ms = std::min(ms, a / hm); } r.minsub = ms; }   // exact zeros are DETECTED breakdowns and do not count
         r.beta_err = std::abs((double) fac.m_beta - (double) fac.m_op.norm(f)) / scale;
         r.finite = std::isfinite(r.rel) && std::isfinite(r.orth) && std::isfinite(r.fperp);
     }
@@ -576,6 +578,11 @@ inline CVec start_vector(const IRunner& r, const std::string& spec)
     const int n = r.prob.n; CVec v(n);
     if (spec.size() && spec[0] == 'r') { Rng g(std::stoull(spec.substr(1))); for (int i = 0; i < n; i++) v[i] = r.complex_scalar() ? cd(g.sym(), g.sym()) : cd(g.sym(), 0); return v; }
     if (spec == "zero") { v.setZero(); return v; }
+    if (spec.size() && spec[0] == 'g')
+    {   // k-th eigenvector of the pencil (A, B): an exact one-dimensional invariant subspace of every generalized mode
+        Eigen::GeneralizedSelfAdjointEigenSolver<Mat> es(r.prob.A, r.prob.B); int k = std::stoi(spec.substr(1)) % n;
+        return es.eigenvectors().col(k).cast<cd>();
+    }
     if (spec.size() && spec[0] == 'b')
     {   // supported on the leading max(2, n/3) coordinates: an invariant subspace of the block-diagonal families
         Rng g(std::stoull(spec.substr(1)) + 77); const int kb = std::max(2, n / 3); v.setZero();
